@@ -4,7 +4,7 @@
 cd /verif; ./build.sh || exit 2
 PROPS=$(./bin/rsyncverif -prop list)
 OUT=/verif/refactors/MATRIX.txt; : > $OUT.tmp
-for d in refactors/*.diff; do
+for d in refactors/${RF_GLOB:-*}.diff; do
   true
   name=$(basename $d .diff)
   S=$(mktemp -d /tmp/rsyncverif-matrix.XXXXXX); mkdir -p $S/repo
